@@ -7,8 +7,8 @@
    not yet covered by a theorem are decided by the implementation <-> specification <->
    hardware differential run only (listed as unproved_forms in the evidence). *)
 From Coq Require Import ZArith Bool List.
-From AxV Require Import Bits Outcome Codes Iced State Rt Mem Trace Exec ExecP FrameTac FrameP RegFile RegsP ISA CodeSem IsaP OperandP MovP ByteStore RmP AluRmP Alu32P MovxP SimpleP DivP Examples.
-From AxG Require Import Flags Regs Operand Helpers Dispatch Frame I_lea I_mov I_div I_idiv I_cmovae I_cmove I_cmovne I_movsxd I_movzx I_cdqe I_cqo I_cdq I_cld I_nop I_endbr64.
+From AxV Require Import Bits Outcome Codes Iced State Rt Mem Trace Exec ExecP FrameTac FrameP RegFile RegsP ISA CodeSem IsaP OperandP MovP ByteStore RmP AluRmP Alu32P AluImmP AluImm32P MovxP SimpleP MovImmP SetccP Alu16P Alu8P AluImm16P AluImm8P MovImm16P MovImm8P MovStore32P MovStore16P MovStore8P DivP Examples.
+From AxG Require Import Flags Regs Operand Helpers Dispatch Frame I_lea I_mov I_div I_idiv I_cmovae I_cmove I_cmovne I_movsxd I_movzx I_cdqe I_cqo I_cdq I_cld I_nop I_endbr64 I_setb I_sete I_setne.
 Local Open Scope Z_scope.
 
 (* apart from registers, flags, memory contents, FS/GS, the trace and the call stack,
@@ -109,6 +109,141 @@ Proof.
   exact (nop_refines c i s).
 Qed.
 
+(* LEA r32, m; MOV r64, imm64; MOV r/m64, imm32 and MOV r32 / r/m32, imm32 with a register destination *)
+Theorem C01_lea_r32 : forall c i s,
+  i_code i = C_Lea_r32_m -> wf_regs s -> wf_mem_instr i ->
+  i_op_count i = 2 -> i_op_kind i 0 = OK_Register -> i_op_kind i 1 = OK_Memory -> is_gpr32 (i_op_register i 0) = true ->
+  exists s', instr_lea_r32_m c i s = (Ok tt, s') /\ isa_exec (SLea 32) i s = IDone s' 0.
+Proof. exact lea32_refines. Qed.
+
+Theorem C01_mov_reg_imm : forall c i s,
+  wf_regs s -> Inv (mem s) -> i_op_count i = 2 -> i_op_kind i 0 = OK_Register ->
+  (is_gpr64 (i_op_register i 0) = true -> imm64x_shape i ->
+     (i_code i = C_Mov_r64_imm64 -> exists s', instr_mov_r64_imm64 c i s = (Ok tt, s') /\ isa_exec (SMov 64) i s = IDone s' 0) /\
+     (i_code i = C_Mov_rm64_imm32 -> exists s', instr_mov_rm64_imm32 c i s = (Ok tt, s') /\ isa_exec (SMov 64) i s = IDone s' 0)) /\
+  (is_gpr32 (i_op_register i 0) = true -> imm32_shape i ->
+     (i_code i = C_Mov_r32_imm32 -> exists s', instr_mov_r32_imm32 c i s = (Ok tt, s') /\ isa_exec (SMov 32) i s = IDone s' 0) /\
+     (i_code i = C_Mov_rm32_imm32 -> exists s', instr_mov_rm32_imm32 c i s = (Ok tt, s') /\ isa_exec (SMov 32) i s = IDone s' 0)).
+Proof.
+  intros c i s Hwf HI Hn K0. split.
+  - intros H0 Him. split; intros Ec.
+    + exact (mov_r64_imm64_refines c i s Hwf HI Hn Ec K0 H0 Him).
+    + exact (mov_r64_imm32_refines c i s Hwf HI Hn Ec K0 H0 Him).
+  - intros H0 Him. exact (mov_r32_imm32_refines c i s Hwf HI Hn K0 H0 Him).
+Qed.
+
+(* MOVZX r32/r64, r/m16 *)
+Theorem C01_movzx_rm16 : forall c i s,
+  wf_regs s -> Inv (mem s) -> i_op_count i = 2 -> i_op_kind i 0 = OK_Register -> rm16_shape i 1 ->
+  (i_code i = C_Movzx_r32_rm16 -> is_gpr32 (i_op_register i 0) = true ->
+     match isa_exec (SMovzx 32 16) i s with
+     | IDone s' u => instr_movzx_r32_rm16 c i s = (Ok tt, s') /\ u = 0
+     | IFault FMem => exists e, instr_movzx_r32_rm16 c i s = (Err e, s)
+     | IFault _ => False end) /\
+  (i_code i = C_Movzx_r64_rm16 -> is_gpr64 (i_op_register i 0) = true ->
+     match isa_exec (SMovzx 64 16) i s with
+     | IDone s' u => instr_movzx_r64_rm16 c i s = (Ok tt, s') /\ u = 0
+     | IFault FMem => exists e, instr_movzx_r64_rm16 c i s = (Err e, s)
+     | IFault _ => False end).
+Proof.
+  intros c i s Hwf HI Hn K0 Hs. split.
+  - exact (movzx_r32_rm16_refines c i s Hwf HI Hn K0 Hs).
+  - exact (movzx_r64_rm16_refines c i s Hwf HI Hn K0 Hs).
+Qed.
+
+(* SETB / SETE / SETNE r8 (register destination) *)
+Theorem C01_setcc_r8 : forall c i s,
+  wf_regs s -> i_op_count i = 1 -> i_op_kind i 0 = OK_Register -> is_gpr8 (i_op_register i 0) = true ->
+  (i_code i = C_Sete_rm8 -> set_refines i s CC_E (instr_sete_rm8 c i s)) /\
+  (i_code i = C_Setne_rm8 -> set_refines i s CC_NE (instr_setne_rm8 c i s)) /\
+  (i_code i = C_Setb_rm8 -> set_refines i s CC_B (instr_setb_rm8 c i s)).
+Proof.
+  intros c i s Hwf Hn K0 H0. repeat split; intros Ec.
+  - exact (sete_r8_refines c i s Hwf Hn K0 H0 Ec).
+  - exact (setne_r8_refines c i s Hwf Hn K0 H0 Ec).
+  - exact (setb_r8_refines c i s Hwf Hn K0 H0 Ec).
+Qed.
+
+(* MOV / CMOVcc at 16 bits and MOV at 8 bits (register or memory source; the other bits of the destination
+   register are kept), and MOV r16/r8, imm *)
+Theorem C01_mov_cmov_16_8 : forall c i s,
+  wf_regs s -> Inv (mem s) -> i_op_count i = 2 -> i_op_kind i 0 = OK_Register ->
+  (is_gpr16 (i_op_register i 0) = true -> rm16_shape i 1 ->
+     (i_code i = C_Mov_r16_rm16 -> refines16 i s (SMov 16) (instr_mov_r16_rm16 c i s)) /\
+     (i_code i = C_Cmovae_r16_rm16 -> refines16 i s (SCmov CC_AE 16) (instr_cmovae_r16_rm16 c i s)) /\
+     (i_code i = C_Cmove_r16_rm16 -> refines16 i s (SCmov CC_E 16) (instr_cmove_r16_rm16 c i s)) /\
+     (i_code i = C_Cmovne_r16_rm16 -> refines16 i s (SCmov CC_NE 16) (instr_cmovne_r16_rm16 c i s))) /\
+  (is_gpr8 (i_op_register i 0) = true -> rm8_shape i 1 ->
+     (i_code i = C_Mov_r8_rm8 -> refines8 i s (SMov 8) (instr_mov_r8_rm8 c i s))).
+Proof.
+  intros c i s Hwf HI Hn K0. split.
+  - intros H0 Hs. repeat split; intros Ec.
+    + exact (mov_r16_rm16_refines c i s Hwf HI Hn K0 H0 Hs Ec).
+    + exact (cmovae_r16_rm16_refines c i s Hwf HI Hn K0 H0 Hs Ec).
+    + exact (cmove_r16_rm16_refines c i s Hwf HI Hn K0 H0 Hs Ec).
+    + exact (cmovne_r16_rm16_refines c i s Hwf HI Hn K0 H0 Hs Ec).
+  - intros H0 Hs Ec. exact (mov_r8_rm8_refines c i s Hwf HI Hn K0 H0 Hs Ec).
+Qed.
+
+Theorem C01_mov_reg_imm_16_8 : forall c i s,
+  wf_regs s -> Inv (mem s) -> i_op_count i = 2 -> i_op_kind i 0 = OK_Register ->
+  (is_gpr16 (i_op_register i 0) = true -> imm16_shape i ->
+     (i_code i = C_Mov_r16_imm16 -> exists s', instr_mov_r16_imm16 c i s = (Ok tt, s') /\ isa_exec (SMov 16) i s = IDone s' 0) /\
+     (i_code i = C_Mov_rm16_imm16 -> exists s', instr_mov_rm16_imm16 c i s = (Ok tt, s') /\ isa_exec (SMov 16) i s = IDone s' 0)) /\
+  (is_gpr8 (i_op_register i 0) = true -> imm8_shape i ->
+     (i_code i = C_Mov_r8_imm8 -> exists s', instr_mov_r8_imm8 c i s = (Ok tt, s') /\ isa_exec (SMov 8) i s = IDone s' 0) /\
+     (i_code i = C_Mov_rm8_imm8 -> exists s', instr_mov_rm8_imm8 c i s = (Ok tt, s') /\ isa_exec (SMov 8) i s = IDone s' 0)).
+Proof.
+  intros c i s Hwf HI Hn K0. split; intros H0 Him.
+  - exact (mov_r16_imm16_refines c i s Hwf HI Hn K0 H0 Him).
+  - exact (mov_r8_imm8_refines c i s Hwf HI Hn K0 H0 Him).
+Qed.
+
+(* MOV r/m, r at 32, 16 and 8 bits, exactly: when the destination can be read (always, for a register) the
+   instruction is the specification's MOV; otherwise (memory that is not readable: the boundary of
+   KF-C06-store-reads-destination) the step fails and changes nothing *)
+Theorem C01_mov_rm32_r32 : forall c i s,
+  wf_regs s -> Inv (mem s) -> i_op_count i = 2 -> rm32_shape i 0 ->
+  i_op_kind i 1 = OK_Register -> is_gpr32 (i_op_register i 1) = true -> i_code i = C_Mov_rm32_r32 ->
+  match read_op i 0 32 s with
+  | Some _ =>
+      match isa_exec (SMov 32) i s with
+      | IDone s' u => instr_mov_rm32_r32 c i s = (Ok tt, s') /\ u = 0
+      | IFault FMem => exists e, instr_mov_rm32_r32 c i s = (Err e, s)
+      | IFault _ => False
+      end
+  | None => exists e, instr_mov_rm32_r32 c i s = (Err e, s)
+  end.
+Proof. exact mov_rm32_r32_exact. Qed.
+
+Theorem C01_mov_rm16_r16 : forall c i s,
+  wf_regs s -> Inv (mem s) -> i_op_count i = 2 -> rm16_shape i 0 ->
+  i_op_kind i 1 = OK_Register -> is_gpr16 (i_op_register i 1) = true -> i_code i = C_Mov_rm16_r16 ->
+  match read_op i 0 16 s with
+  | Some _ =>
+      match isa_exec (SMov 16) i s with
+      | IDone s' u => instr_mov_rm16_r16 c i s = (Ok tt, s') /\ u = 0
+      | IFault FMem => exists e, instr_mov_rm16_r16 c i s = (Err e, s)
+      | IFault _ => False
+      end
+  | None => exists e, instr_mov_rm16_r16 c i s = (Err e, s)
+  end.
+Proof. exact mov_rm16_r16_exact. Qed.
+
+Theorem C01_mov_rm8_r8 : forall c i s,
+  wf_regs s -> Inv (mem s) -> i_op_count i = 2 -> rm8_shape i 0 ->
+  i_op_kind i 1 = OK_Register -> is_gpr8 (i_op_register i 1) = true -> i_code i = C_Mov_rm8_r8 ->
+  match read_op i 0 8 s with
+  | Some _ =>
+      match isa_exec (SMov 8) i s with
+      | IDone s' u => instr_mov_rm8_r8 c i s = (Ok tt, s') /\ u = 0
+      | IFault FMem => exists e, instr_mov_rm8_r8 c i s = (Err e, s)
+      | IFault _ => False
+      end
+  | None => exists e, instr_mov_rm8_r8 c i s = (Err e, s)
+  end.
+Proof. exact mov_rm8_r8_exact. Qed.
+
 (* DIV r/m64: quotient and remainder of RDX:RAX by the register or memory divisor (the complete
    statement, including the failing cases, is C06_div_rm64) *)
 Theorem C01_div_rm64 : forall c i s,
@@ -192,3 +327,12 @@ Print Assumptions C01_movsxd_r64_rm32.
 Print Assumptions C01_movzx_r32_rm8.
 Print Assumptions C01_movzx_r64_rm8.
 Print Assumptions C01_simple.
+Print Assumptions C01_lea_r32.
+Print Assumptions C01_mov_reg_imm.
+Print Assumptions C01_movzx_rm16.
+Print Assumptions C01_setcc_r8.
+Print Assumptions C01_mov_cmov_16_8.
+Print Assumptions C01_mov_reg_imm_16_8.
+Print Assumptions C01_mov_rm32_r32.
+Print Assumptions C01_mov_rm16_r16.
+Print Assumptions C01_mov_rm8_r8.
